@@ -181,6 +181,12 @@ struct Monitor {
     std::sort(runs.begin(), runs.end(), [](const AddrRun& a, const AddrRun& b) { return a.lo < b.lo; });
     seen.assign(n, 0);
     haveMap = true;
+#if VERIF_TSAN
+    // observation only (never a verdict for C16): TSan reports whose address lies in the user's input
+    verif::clear_payloads();
+    if (runs.size() == 1)
+      verif::register_payload(runs[0].lo, (size_t)(runs[0].hi - runs[0].lo), "c16-input");
+#endif
   }
   void unmap() { haveMap = false; }
   // position of the element at address p, or LONG_MIN if p is not an element of the input
